@@ -1687,3 +1687,77 @@ M("c05-registry-key-drops-parent-tags", "C05", "scope_registry.go",
   "	sanitizedKey = scopeRegistryKey(prefix, parent.tags, tags)", "	sanitizedKey = scopeRegistryKey(prefix, tags)", expect="O1 key-arguments")
 M("c05-keyforstringmap-prefix", "C05", "key_gen.go",
   "	return KeyForPrefixedStringMap(nilString, stringMap)", "	return KeyForPrefixedStringMap(\"_\", stringMap)", expect="O4 same-writer")
+
+# ---------------------------------------------------------------- later additions
+M("c01-registry-skips-closed-before-report", "C01", "scope_registry.go",
+  """			closed := s.closed.Load()
+			s.report(reporter)
+""", """			closed := s.closed.Load()
+			if s.root && closed {
+				continue
+			}
+			s.report(reporter)
+""", expect="O8 registry-coverage")
+M("c01-registry-first-shard-only", "C01", "scope_registry.go",
+  "func (r *scopeRegistry) CachedReport() {\n	r.reportInternalMetrics()\n\n	for _, subscopeBucket := range r.subscopes {", "func (r *scopeRegistry) CachedReport() {\n	r.reportInternalMetrics()\n\n	for _, subscopeBucket := range r.subscopes[:1] {", expect="O8 registry-coverage")
+M("c13-bucketid-reversed", "C13", "m3/reporter.go",
+  "				bucketID:           r.stringInterner.Intern(fmt.Sprintf(bucketIDFmt, i)),", "				bucketID:           r.stringInterner.Intern(fmt.Sprintf(bucketIDFmt, buckets.Len()-i)),", expect="O7 bucket-identity")
+M("c13-prev-not-updated", "C13", "m3/reporter.go",
+  "		prevValue = pair.UpperBoundValue()\n", "", expect="O7 bucket-identity")
+M("c13-bucket-lookup-gt", "C13", "m3/reporter.go",
+  "			return h.cachedDurationBuckets[i].durationUpperBound >= bucketUpperBound", "			return h.cachedDurationBuckets[i].durationUpperBound > bucketUpperBound", expect="O7 bucket-identity")
+M("c17-with-nil-tags", "C17", "prometheus/reporter.go",
+  "	return &cachedMetric{gauge: gaugeVec.With(tags)}", "	return &cachedMetric{gauge: gaugeVec.With(prom.Labels{})}", expect="O2 allocator")
+M("c16-emit-twice", "C16", "m3/thrift/v2/m3.go",
+  """	if err = p.sendEmitMetricBatchV2(batch); err != nil {
+		return
+	}
+	return""", """	if err = p.sendEmitMetricBatchV2(batch); err != nil {
+		err = p.sendEmitMetricBatchV2(batch)
+	}
+	return""", expect="O1 client-send")
+B("c07-benign-dedupe-helper", "C07", "scope_registry.go",
+  """func (r *scopeRegistry) Report(reporter StatsReporter) {
+	r.reportInternalMetrics()
+
+	for _, subscopeBucket := range r.subscopes {
+		subscopeBucket.mu.RLock()
+
+		for name, s := range subscopeBucket.s {
+			// n.b. Sample the flag before reporting: everything recorded
+			//      before Close() is then covered by this report.
+			closed := s.closed.Load()
+			s.report(reporter)
+
+			if closed {
+				r.removeWithRLock(subscopeBucket, name, s)
+				s.clearMetrics()
+			}
+		}
+
+		subscopeBucket.mu.RUnlock()
+	}
+}
+""", """func (r *scopeRegistry) Report(reporter StatsReporter) {
+	r.reportInternalMetrics()
+	r.reportAndPrune(func(s *scope) { s.report(reporter) })
+}
+
+func (r *scopeRegistry) reportAndPrune(report func(*scope)) {
+	for _, subscopeBucket := range r.subscopes {
+		subscopeBucket.mu.RLock()
+
+		for name, s := range subscopeBucket.s {
+			closed := s.closed.Load()
+			report(s)
+
+			if closed {
+				r.removeWithRLock(subscopeBucket, name, s)
+				s.clearMetrics()
+			}
+		}
+
+		subscopeBucket.mu.RUnlock()
+	}
+}
+""")
